@@ -1689,7 +1689,24 @@ impl BytecodeVM {
     ) -> Result<(), JsError> {
         // Capture stack trace BEFORE unwinding the trampoline stack
         // This gives us the full call stack at the point of error
-        let wrapped_error = self.wrap_error_with_trace(e);
+        let wrapped_error = match e {
+            // A trace that is already present was captured by a nested VM (a callback run by a
+            // native function, a generator resumed by next(), a getter, ...) and ends at that
+            // VM's entry: the calls active in this VM are its outer frames.
+            JsError::RuntimeError {
+                kind,
+                message,
+                mut stack,
+            } => {
+                stack.extend(self.build_stack_trace());
+                JsError::RuntimeError {
+                    kind,
+                    message,
+                    stack,
+                }
+            }
+            e => self.wrap_error_with_trace(e),
+        };
 
         // First check for handler in current frame
         if let Some((handler_ip, is_catch)) = self.find_exception_handler(interp) {
